@@ -118,5 +118,5 @@ class LogActionResult(ActionResult):
         """
         tracepoint_logger = ctx.config.tracepoint_logger
         if tracepoint_logger:
-            tracepoint_logger.log_tracepoint(self.log, ctx.id, self.action.id)
+            tracepoint_logger.log_tracepoint(self.log, self.action.id, ctx.id)
         return None
